@@ -1,6 +1,7 @@
 """C03 -- a crash while appending never damages committed records or shows a torn one.
 Tie H: for sessions of 1..4 puts the byte stream written by the real UKVFile is cut at EVERY byte offset;
-each crash image is reopened by the real implementation (r; then a + put; then r again) and by Model/UKV.v
+each crash image is reopened by the real implementation (r; then a + put; then r again -- through three handle
+objects or through one long-lived object reopened) and by Model/UKV.v
 inside Coq.  Random histories with Crash ops add second crashes and long-lived handles."""
 import os, struct
 import vlib, ukv_common as U
@@ -23,17 +24,22 @@ def sessions(ctx, n):
     return out
 
 
-def probe_ops(committed, puts):
+def probe_ops(committed, puts, reuse=False):
+    """r; then a + put; then r again -- through three handle objects, or (reuse) through ONE long-lived handle object
+    that is reopened (a Collection backend keeps its UKVFile: reading() then writing() after a crash)."""
+    h1, h2 = (0, 0) if reuse else (1, 2)
     ops = [("open", 0, "r"), ("keys", 0)]
     for k, _ in committed + puts:
         ops.append(("get", 0, k))
-    ops += [("close", 0), ("open", 1, "a"), ("keys", 1), ("put", 1, b"NEW", U.Val(5, 3))]
+    ops += [("close", 0), ("open", h1, "a"), ("keys", h1), ("put", h1, b"NEW", U.Val(5, 3))]
     if puts:
-        ops.append(("put", 1, puts[-1][0], U.Val(77, 2)))      # re-put of the possibly torn key
-    ops += [("close", 1), ("open", 2, "r"), ("keys", 2)]
+        ops.append(("put", h1, puts[-1][0], U.Val(77, 2)))      # re-put of the possibly torn key
+    ops += [("close", h1), ("open", h2, "r"), ("keys", h2)]
     for k, _ in committed + puts + [(b"NEW", None)]:
-        ops.append(("get", 2, k))
-    ops.append(("close", 2))
+        ops.append(("get", h2, k))
+    ops.append(("close", h2))
+    if reuse:                                                   # and a fresh object sees the same
+        ops += [("open", 1, "r"), ("keys", 1), ("get", 1, b"NEW"), ("close", 1)]
     return ops
 
 
@@ -75,8 +81,10 @@ def run(ctx, rep):
         for k, v in puts:
             pos += 5 + len(k) + len(v.b); ends.append(pos)
         for n in offs:
-            d = U.drive(path + ".img", probe_ops(committed, puts), nh=3, init_bytes=data[:n])
+            reuse = (n + si) % 2 == 1
+            d = U.drive(path + ".img", probe_ops(committed, puts, reuse), nh=3, init_bytes=data[:n])
             cases.append(U.case_coq(d, 3)); meta.append((si, n))
+            rep.count("probe:" + ("one-handle-reopened" if reuse else "three-handles"))
             inside = n != base and n not in ends
             rep.case(key=f"s{si}@{n}" if inside else None,
                      sample={"session": [[k.hex()[:16], v.n] for k, v in puts], "offset": n - base, "results": d["results"][:6]} if (si, n - base) in ((0, 3), (1, 7)) else None)
@@ -84,7 +92,7 @@ def run(ctx, rep):
             for sig, text in d["oracle"]:
                 rep.violate(sig.replace("C02:", "C03:"), f"session {si} cut at +{n - base}: {text}",
                             {"kind": "image", "committed": [[k.hex(), v.seed, v.n] for k, v in committed],
-                             "puts": [[k.hex(), v.seed, v.n] for k, v in puts], "offset": n - base, "h2": "cmt" if si % 2 else ""})
+                             "puts": [[k.hex(), v.seed, v.n] for k, v in puts], "offset": n - base, "h2": "cmt" if si % 2 else "", "reuse": reuse})
     # random histories with crashes (second crash, handles reopened after a crash)
     import c02
     for r in range(2000 if ctx.thorough else 250):
@@ -125,6 +133,6 @@ def replay(ctx, data):
             f.put(k, v.b)
         f.close()
         img = open(path, "rb").read()[:base + data["offset"]]
-        d = U.drive(path + ".img", probe_ops(committed, puts), nh=3, init_bytes=img)
+        d = U.drive(path + ".img", probe_ops(committed, puts, data.get("reuse", False)), nh=3, init_bytes=img)
     print("ops:", d["ops"]); print("results:", d["results"])
     return [vlib.Violation(s.replace("C02:", "C03:"), t) for s, t in d["oracle"]]
